@@ -62,7 +62,7 @@ def applyAction (caps : Caps) (e : PEntry) (ci : CEntry) : Action → CEntry
   | .hat => if caps.hat then { ci with hat := e.hat } else ci
 
 /-- the packet's `EnumSet<Action>`: a set, iterated in declaration order -/
-def enumSet (acts : List Action) : List Action := allActions.filter acts.contains
+def enumSet (acts : List Action) : List Action := canonActs acts
 
 def applyActions (caps : Caps) (acts : List Action) (e : PEntry) (ci : CEntry) : CEntry :=
   (enumSet acts).foldl (applyAction caps e) ci
